@@ -84,7 +84,7 @@ def gen_case(rng, per):
 
 
 def gen_cases(rng, tier):
-    n = 50 if tier == "thorough" else 8
+    n = 50 if tier == "thorough" else 12
     return [gen_case(rng, 50) for _ in range(n)]
 
 
